@@ -107,6 +107,10 @@ static void build_archives(void)
 	ab_add(a, 2, 2, "-lhd-", "", "shortlnk", "/abs", 0, 0, 1, 0120777, 1262304000);
 	ab_add(a, 2, 2, "-lhd-", "dd/", "s2", "../../y", 0, 0, 1, 0120777, 1262304000);
 	ab_add(a, 2, 0, "-lh0-", "", "f", NULL, 10, 8, 1, 0100644, 1262304000);
+	/* targets whose only '..' component is the last one are dangerous too; '..x' and '...' are ordinary names */
+	ab_add(a, 2, 2, "-lhd-", "", "t1", "..", 0, 0, 1, 0120777, 1262304000);
+	ab_add(a, 2, 2, "-lhd-", "dd/", "t2", "sub/..", 0, 0, 1, 0120777, 1262304000);
+	ab_add(a, 2, 2, "-lhd-", "", "t3", "..x/...", 0, 0, 1, 0120777, 1262304000);
 	/* 7: MacLHA member whose data is cut (the MacBinary pass-through cannot start), then nothing */
 	a = &ARCS[NARCS++]; ab_init(a, 1 << 18);
 	ab_add(a, 1, 0, "-lh5-", "", "ok", NULL, 200, 14, 0, 0, 0);
@@ -340,6 +344,12 @@ static void execute(const ab_arc *a, int ai, int policy, vf_enum *e, const run_o
 			 * (same actions per entry position) without the model */
 			int act;
 			if (!h) { if (++extra_next >= 3) break; continue; }
+			{
+				/* whatever could not be allocated, a header that is handed out is a clean one (C11: "in every header the library
+				 * returns"): no '/' in the name, no '.', '..' or empty component in the path */
+				const char *bad = path_invariant(h);
+				if (bad) vf_viol("c11-invariant-after-allocation-failure", "%s: path=[%s] filename=[%s]", bad, h->path ? h->path : "(null)", h->filename ? h->filename : "(null)");
+			}
 			act = entries < ro->full_entries ? vf_choose(e, A_COUNT) : A_EXTRACT;
 			++entries;
 			if (entries > 40) break;
